@@ -5,6 +5,7 @@ namespace Drv
 def arithOfStr : String → Option Arith | "add" => some .add | "sub" => some .sub | "mul" => some .mul | "div" => some .div | "rem" => some .rem | _ => none
 def showOI : Option Int → String | none => "none" | some v => s!"some {v}"
 def showRes : Res → String | .val v => s!"val {v}" | .panic => "panic"
+def showPlain : PlainRes → String | .val v => s!"val {v}" | .overflowPanic => "panic(overflow-check)"
 /-- exact integer arithmetic by the book: the result iff representable and the divisor is non-zero -/
 def specArith (signed : Bool) (op : Arith) (a b : Int) : Option Int :=
   let t := if signed then TyI64 else TyU64
@@ -30,7 +31,14 @@ def stepC18 : Step := fun toks =>
   | ["amt_possub", a, b] => do
     let a ← a.toInt?; let b ← b.toInt?
     pure ((match positiveSub a b with | some r => showOI r | none => "unmodelled"), showOI (if 0 ≤ b ∧ b ≤ a then some (a - b) else none))
-  | ["amt_abs", a] => do let a ← a.toInt?; pure (showRes (absOp a), (if a = -(2^63) then "panic" else s!"val {a.natAbs}"))
+  -- `abs` in the harness build (overflow checks on). Model: plain `i64::abs`, whose panic at MIN is the compiler's overflow check.
+  -- Spec: the exact value wherever it exists; at MIN the property's text has no clause (`abs` is not one of its operations), so no
+  -- spec-side comparison is made there — what the library does at MIN is recorded as an observation (DESIGN 14.10), and a WRAPPED
+  -- value coming back in this build is caught by the model column and by the harness' direct check.
+  | ["amt_abs", a] => do let a ← a.toInt?; pure (showPlain (absPlain true a), (if a = -(2^63) then "-" else s!"val {a.natAbs}"))
+  -- std's `i64::wrapping_abs`, which is what `i64::abs` computes in a build without overflow checks (std documentation of `abs`):
+  -- validates `absPlain false` (model column) against std; the spec column is the closed form
+  | ["amt_abs_nochk", a] => do let a ← a.toInt?; pure (showPlain (absPlain false a), (if a = -(2^63) then s!"val {a}" else s!"val {a.natAbs}"))
   | ["amt_checked_abs", a] => do let a ← a.toInt?; pure (showOI (checkedAbs a), showOI (if a = -(2^63) then none else some (a.natAbs : Int)))
   | ["amt_signum", a] => do let a ← a.toInt?; pure (toString (signum a), toString (Int.sign a))
   | _ => none
